@@ -301,7 +301,8 @@ func c06Machine(c *Ctx, variant ...string) *Machine[*condInst] {
 		Name: name,
 		// the small machine runs one transition at a time and watches a bystander Condition
 		Sequential:     len(variant) > 0 && variant[0] == "encapsulation",
-		NoopProbeDepth: map[bool]int{true: 2, false: 1}[len(variant) > 0 && variant[0] == "encapsulation"],
+		NoopProbeDepth: map[bool]int{true: 3, false: 1}[len(variant) > 0 && variant[0] == "encapsulation"],
+		ObserveDepth:   map[bool]int{true: 3, false: 2}[len(variant) > 0 && variant[0] == "encapsulation"],
 		New: func() *condInst {
 			if len(variant) == 0 || variant[0] != "encapsulation" {
 				return &condInst{}
